@@ -12,7 +12,8 @@ Open Scope N_scope.
 (** ** Outcomes of partial Python operations *)
 Inductive uerr :=
 | KeyError | ZeroDivisionError | OverflowError | AssertionError | ValueError | IndexError
-| OutOfFuel.     (* artefact of the model's fuel; shown never to occur on the table *)
+| OutOfFuel      (* artefact of the model's fuel; shown never to occur on the table *)
+| OutOfModel.    (* a negative number reached the number formatter (recipes cannot express one) *)
 
 Inductive res (A : Type) := Ok (a : A) | Err (e : uerr).
 Arguments Ok {A} a.
@@ -22,7 +23,7 @@ Definition uerr_eqb (a b : uerr) : bool :=
   match a, b with
   | KeyError, KeyError | ZeroDivisionError, ZeroDivisionError | OverflowError, OverflowError
   | AssertionError, AssertionError | ValueError, ValueError | IndexError, IndexError
-  | OutOfFuel, OutOfFuel => true
+  | OutOfFuel, OutOfFuel | OutOfModel, OutOfModel => true
   | _, _ => false
   end.
 
